@@ -27,8 +27,8 @@ PID = "C02"
 TSPEC = "C02_CheckerTrace"
 FX_CONST = [("idpos", "FxIdPos"), ("negidx", "FxNegIdx"), ("empty", "FxEmpty"), ("extng", "FxExtNg"), ("extcmp", "FxExtCmp")]
 I_INVS = ["ImplRefines", "ExtRefines", "ImplNoGaps", "ImplGapsExact", "ComputeOnlyPlain"]
-SLICES = {"quick": ["f2", "k1", "b1"], "thorough": ["f2x", "f3", "k2", "k0"]}
-NRANDOM = {"quick": 2000, "thorough": 30000}
+SLICES = {"quick": ["f2", "k1", "b1"], "thorough": ["f3b", "f3", "f2x", "k2", "k0"]}
+NRANDOM = {"quick": 2000, "thorough": 60000}
 REPS_PER_GROUP = 1
 
 
@@ -288,7 +288,7 @@ def run(rep, tier):
     rep.notes["exercise"] = {"nontrivial_events": nt, "accepted_gap_free_2plus_items": acc_ng, "accepted_with_gaps": acc_gap,
                              "accepted_with_blocks": blocks, "accepted_with_gap_macro": macro_gap,
                              "extensions_installed_as_proved": inst, "extensions_reported_as_axiom": axi}
-    guards = [(nt >= (1200 if quick else 15000), "too few non-trivially examined events (%d)" % nt),
+    guards = [(nt >= (1200 if quick else 30000), "too few non-trivially examined events (%d)" % nt),
               (acc_ng >= 300 and acc_gap >= 200 and blocks >= 50 and macro_gap >= 20 and axi >= 1, "exercise too thin: %s" % rep.notes["exercise"]),
               (inst >= 100, "no extension was ever installed as proved"),
               (per_src.get("rnd", {}).get("nontrivial", 0) >= 0.3 * per_src.get("rnd", {}).get("events", 1), "random objects are mostly not examined")]
